@@ -45,6 +45,7 @@ type WorkerSummary struct {
 	SentinelsChecked int        `json:"sentinels_checked,omitempty"`
 	Cases        int            `json:"cases,omitempty"`
 	Sampled      int            `json:"sampled_cases,omitempty"`
+	Leftover     int            `json:"leftover_library_goroutines,omitempty"`
 	Executions   int            `json:"executions,omitempty"`
 	Observable   int            `json:"observable,omitempty"`
 	DistinctObs  []uint64       `json:"distinct_obs,omitempty"`
@@ -166,6 +167,9 @@ func TestSim(t *testing.T) {
 		}
 	}
 	ColdStart = os.Getenv("SIM_COLD") != ""
+	if !ColdStart && os.Getenv("SIM_NOPOOL") == "" {
+		warmUp()
+	}
 	// The hook must be alive: a trivially stepping query has to report steps.
 	// (Not in cold-start runs, whose point is that nothing has run before.)
 	if !ColdStart {
@@ -191,6 +195,7 @@ func TestSim(t *testing.T) {
 	began := time.Now()
 	sum := &WorkerSummary{Role: role, Mode: mode, From: from, To: to, Stats: newRunStats()}
 	finish := func() {
+		sum.Leftover = int(LeftoverGoroutines.Load())
 		sum.WallS = time.Since(began).Seconds()
 		sum.Ops, sum.Steps, sum.Windows, sum.SimNanos = sum.Stats.Ops, sum.Stats.Steps, sum.Stats.Windows, sum.Stats.SimNanos
 		writeSummary(sum)
